@@ -30,7 +30,10 @@ RULE = ("1..4 self-consistent simulated devices x 1..5 services of real pyatv se
         "lack an identifier next to services that have one; _airport/_sleep-proxy services mixed in; dedicated "
         "cases with one datagram per service so that every parser-table order occurs; TXT values that make a "
         "device_info extractor or service_info raise - comma in waMA, two-word flags, non-hex features, empty "
-        "and very long values - on some services of some devices, next to ordinary devices), rendered to "
+        "and very long values - on some services of some devices, next to ordinary devices; one datagram the "
+        "decoder rejects (value-less non-ASCII TXT attribute, truncated header) at every position; scans "
+        "restricted with protocol= compared with the same scan without the unrequested answers; "
+        "identifier-restricted scans below the early-exit threshold), rendered to "
         "response datagrams; all permutations of up to 5 (quick) / 6 (thorough) datagrams, sampled beyond, "
         "each with random duplication; multicast and unicast scanner; non-trivial = >=2 datagrams, a "
         "configuration is returned and the delivery order differs from the reference order or has a "
@@ -42,6 +45,9 @@ ASSUMPTIONS = [
     "lookup_model/lookup_internal_name) enter the model as parameters; the driver is given tables computed "
     "with the real functions",
     "a closed datagram transport delivers nothing more (asyncio semantics)",
+    "an exception escaping UnicastDnsSdClientProtocol.datagram_received is reported to the loop and reading goes on "
+    "(asyncio semantics): an undecodable unicast datagram is as if it never arrived; for the multicast protocol it "
+    "registers the source and nothing else, like a datagram without records",
 ]
 TRUSTED = ["harness/c12.py fakes: datagram endpoint / multicast socket creation, knocker, virtual-time loop",
            "harness/c12.py rendering of abstract records to DNS bytes (repo's DnsMessage.pack + a compressing encoder)"]
